@@ -172,6 +172,15 @@ type zzPair struct {
 	B bool
 }
 
+// two members without a context tag that share one universal type, next to a
+// member of another type
+type zzSameKind struct {
+	First  int64
+	Second int64
+	Flag   bool
+	Third  int64
+}
+
 type zzSetOfHolder struct {
 	Plain []zzPair  `ber:"tagNum:0"`
 	Set   []zzPair  `ber:"tagNum:1,set"`
@@ -294,5 +303,29 @@ func ZZ_C05_DifferentTypesInSequence() {
 		rt3()
 		rt2()
 		rt1()
+	}
+}
+
+// C05 for SEQUENCE members without context tags, several of them of the same
+// universal type: each element is decoded into its own member, in order.
+//
+//gosx:property=C05 tier=quick unwind=16
+func ZZ_C05_UntaggedMembersOfOneType() {
+	mk := func(l string) int64 {
+		v := vx.Int64(l)
+		vx.Assume(v >= -128 && v <= 127)
+		return v
+	}
+	v := zzSameKind{First: mk("first"), Second: mk("second"), Flag: vx.Bool("flag"), Third: mk("third")}
+	b, err := BerMarshal(v)
+	vx.Assert("marshal succeeds", err == nil)
+	if err != nil {
+		return
+	}
+	var w zzSameKind
+	err = Unmarshal(b, &w)
+	vx.Assert("unmarshal succeeds", err == nil)
+	if err == nil {
+		vx.Assert("round trip yields an equal value", vx.Equal(v, w))
 	}
 }
